@@ -1,7 +1,7 @@
 PROP = {
         "modules": ["Discv5Model.Props.C18"],
         "lemma_modules": ["Discv5Model.Proofs.LimiterLemmas"],
-        "engines": [{"name": "limiter", "quick": 1000, "thorough": 50000}, {"name": "handler", "quick": 32, "thorough": 2000, "profile": "C13", "model": False}],
+        "engines": [{"name": "limiter", "quick": 1000, "thorough": 50000}, {"name": "handler", "quick": 32, "thorough": 2000, "profile": "C13", "model": False}, {"name": "service", "quick": 4, "thorough": 40, "model": False, "profile": "C18boot"}],
         "rule": "limiter engine: 70% limiter cases = one Limiter<u64> from a quota (burst 1..100, periods from 7 ns to 60 s, "
                 "exact / rounded / t = 0 / refused quotas) driven through the facade with explicit times by 80..110 arrivals over "
                 "1..4 keys in runs of patterns (burst, exactly at the rate, one ns faster / slower, random, exactly at / one ns before "
@@ -54,3 +54,4 @@ PROP = {
                   "a sampled differential check, not a proof.",
 }
 PROP['rule'] += ' Timed quota cases (2 tokens per 60 ms for the per-node stage, datagrams a whole period apart, from a permitted address or an ordinary one): every such datagram must pass (theorem whole_period_idle_is_within_quota).'
+PROP['rule'] += " Monitors-only profile C18boot (service engine): a node is constructed, bans and permits are made through its own API, it is started, shut down and started again: the entries are there after every one of these steps."
